@@ -162,7 +162,8 @@ def run_analysis(case, workers, timeout, chooser, threshold, max_steps=200000, d
         syscall_cost = procs.SYSCALL_COSTS[chooser.choose(len(procs.SYSCALL_COSTS), "syscallcost")]
     w = procs.World(sim, ncpu=workers, shared=[case.parser, case.mm, case.sem],
                     speeds=speeds or procs.SPEEDS, start_delays=start_delays or procs.START_DELAYS, rtt=rtt,
-                    item_cost=item_cost, fork_cost=fork_cost, syscall_cost=syscall_cost)
+                    item_cost=item_cost, fork_cost=fork_cost, syscall_cost=syscall_cost,
+                    term_ignored=bool(chooser.choose(4, "sigterm-disposition") == 3))
     if parent_cost is None:
         parent_cost = (speeds or procs.SPEEDS)[chooser.choose(len(speeds or procs.SPEEDS), "pspeed")]
     res = RunResult()
